@@ -131,21 +131,21 @@ func NewPool(rng *mrand.Rand) (*Pool, error) {
 
 // Cfg is one scenario: the counterpart of the specification's constants.
 type Cfg struct {
-	Src0       int    `json:"src0"`       // source size at the start
-	Growth     int    `json:"growth"`     // how much it may grow
-	Bad        []int  `json:"bad"`        // indices of unparsable entries
-	DestLen    int    `json:"destLen"`    // leaves initially present at the destination (indices 0..DestLen-1, honest history)
-	DestInt    int    `json:"destInt"`    // of which integrated
-	Batch      int    `json:"batch"`      // get-entries batch size
+	Src0       int    `json:"src0"`    // source size at the start
+	Growth     int    `json:"growth"`  // how much it may grow
+	Bad        []int  `json:"bad"`     // indices of unparsable entries
+	DestLen    int    `json:"destLen"` // leaves initially present at the destination (indices 0..DestLen-1, honest history)
+	DestInt    int    `json:"destInt"` // of which integrated
+	Batch      int    `json:"batch"`   // get-entries batch size
 	Fetchers   int    `json:"fetchers"`
 	Submitters int    `json:"submitters"`
-	Chan       int    `json:"chan"`       // ChannelSize
-	Cont       bool   `json:"cont"`       // continuous mode
-	Start      int    `json:"start"`      // StartIndex in one-shot mode: 0 or -1 (= destination tree size)
-	Forked     bool   `json:"forked"`     // the source serves history F, which shares only its first ForkAt leaves with H
+	Chan       int    `json:"chan"`   // ChannelSize
+	Cont       bool   `json:"cont"`   // continuous mode
+	Start      int    `json:"start"`  // StartIndex in one-shot mode: 0 or -1 (= destination tree size)
+	Forked     bool   `json:"forked"` // the source serves history F, which shares only its first ForkAt leaves with H
 	ForkAt     int    `json:"forkAt"`
-	IDFunc     string `json:"idfunc"`     // "cert" | "index"
-	Mode       string `json:"mode"`       // "run" (Controller.Run) | "master" (RunWhenMaster, scripted election) | "noop" (RunWhenMaster, election2.NoopFactory)
+	IDFunc     string `json:"idfunc"` // "cert" | "index"
+	Mode       string `json:"mode"`   // "run" (Controller.Run) | "master" (RunWhenMaster, scripted election) | "noop" (RunWhenMaster, election2.NoopFactory)
 }
 
 func (c Cfg) isBad(i int) bool {
@@ -160,12 +160,12 @@ func (c Cfg) isBad(i int) bool {
 // Faults is the scripted misbehaviour of the environment; every script is a counted list, consumed
 // per key in call order.  Keys are "<pass>:<start>" (pass = number of GetRoot calls so far).
 type Faults struct {
-	Fetch map[string][]int    `json:"fetch"` // get-entries starting at <start>: k>0 = return only k entries, 0 = as asked, -1 = HTTP 500, -2 = HTTP 429,
+	Fetch map[string][]int `json:"fetch"` // get-entries starting at <start>: k>0 = return only k entries, 0 = as asked, -1 = HTTP 500, -2 = HTTP 429,
 	// -3/-4/-5 = the empty page: 200 with zero entries, spelled {"entries":[]} / {"entries":null} / {}
-	Add   map[string][]string `json:"add"`   // AddSequencedLeaves of the batch starting at <start>: gRPC code names, then OK
-	Root  map[string][]string `json:"root"`  // key "<pass>": GetLatestSignedLogRoot codes
-	STH   map[string][]int    `json:"sth"`   // key "<pass>": HTTP status codes for get-sth
-	Cons  map[string][]int    `json:"cons"`  // key "<pass>": HTTP status codes for get-sth-consistency
+	Add  map[string][]string `json:"add"`  // AddSequencedLeaves of the batch starting at <start>: gRPC code names, then OK
+	Root map[string][]string `json:"root"` // key "<pass>": GetLatestSignedLogRoot codes
+	STH  map[string][]int    `json:"sth"`  // key "<pass>": HTTP status codes for get-sth
+	Cons map[string][]int    `json:"cons"` // key "<pass>": HTTP status codes for get-sth-consistency
 	// environment actions attached to the n-th fake call of a pass (key "<pass>:<n>", n from 1), executed before the call is served
 	Env map[string][]string `json:"env"` // "grow", "integrate", "revoke", "cancel"
 	// replay of specification behaviours: what GetRoot / get-sth of pass <pass> answered in the behaviour
@@ -232,27 +232,27 @@ type World struct {
 	canceled bool
 
 	// monitor state (per pass)
-	pass        int
-	calls       int    // fake calls in this pass
-	rootSize    int    // what GetRoot answered in this pass
-	rootHash    []byte // and the root
-	sthSize     int    // STH served in this pass (-1: none yet)
-	sthRoot     []byte
-	consOK      bool // a valid consistency proof root->sth was served in this pass
-	consBad     bool // an invalid one was
-	maxVerified int  // largest STH size of a pass that passed the gate
-	quotaOpen   map[string]int // batch key -> ResourceExhausted replies not yet followed by a retry
-	quotaAt     map[string]time.Time
-	quotaSeen   int
+	pass         int
+	calls        int    // fake calls in this pass
+	rootSize     int    // what GetRoot answered in this pass
+	rootHash     []byte // and the root
+	sthSize      int    // STH served in this pass (-1: none yet)
+	sthRoot      []byte
+	consOK       bool           // a valid consistency proof root->sth was served in this pass
+	consBad      bool           // an invalid one was
+	maxVerified  int            // largest STH size of a pass that passed the gate
+	quotaOpen    map[string]int // batch key -> ResourceExhausted replies not yet followed by a retry
+	quotaAt      map[string]time.Time
+	quotaSeen    int
 	passTerminal bool // a fault that legitimately ends the current pass was injected (fatal code, cancel, revoked mastership, failed root/sth/cons)
 	anyTerminal  bool // ... in any pass
-	lastIdle    bool // the last pass saw an STH not larger than its position (nothing to do)
-	events      int
-	badRange    int
-	addOK       int
-	emptyPages  int // empty get-entries pages served
-	emptyAdds   int // AddSequencedLeaves requests without leaves refused
-	kinds       map[string]bool
+	lastIdle     bool // the last pass saw an STH not larger than its position (nothing to do)
+	events       int
+	badRange     int
+	addOK        int
+	emptyPages   int // empty get-entries pages served
+	emptyAdds    int // AddSequencedLeaves requests without leaves refused
+	kinds        map[string]bool
 }
 
 // NewWorld creates the scenario.
@@ -643,7 +643,7 @@ func (b *Backend) AddSequencedLeaves(ctx context.Context, in *trillian.AddSequen
 		return nil, gstatus.Error(codes.InvalidArgument, "AddSequencedLeavesRequest.Leaves empty")
 	}
 	if w.quotaOpen[bkey] > 0 {
-		w.quotaOpen[bkey]-- // this is the retry of a batch that had been refused for quota
+		w.quotaOpen[bkey]--                     // this is the retry of a batch that had been refused for quota
 		if !time.Now().After(w.quotaAt[bkey]) { // virtual time (synctest): a retry "with back-off" comes later, not at once
 			w.Rep.Violate("quota:retried-without-delay", "a batch answered ResourceExhausted was retried without any delay", w.ctxt())
 		}
